@@ -109,3 +109,76 @@ REG.stub(("getitem", "ReMatch"), match_getitem)
 REG.stub(("method", "ReMatch", "start"), lambda run, obj, args, kwargs, node: Val(TInt, MATCH.proj(obj.t, 0)))
 REG.stub(("method", "ReMatch", "end"), lambda run, obj, args, kwargs, node: Val(TInt, MATCH.proj(obj.t, 1)))
 REG.stub(("method", "ReMatch", "group"), lambda run, obj, args, kwargs, node: match_getitem(run, obj, args[0] if args else mk_int(0), node))
+
+
+# ---------------------------------------------------------------------------------------------------------------
+# Compiled patterns whose source is SYMBOLIC (built at run time from a setting).  A pattern value is either
+#   literal-suffix:  compiled from  re.escape(lit) + "$"  (end_nl=True: `$` also matches before a final "\n")
+#                                or re.escape(lit) + r"\Z" (end_nl=False)
+#   opaque:          a user-supplied compiled pattern; only `rx_search(id, s)` is known about it
+# re.compile on any OTHER symbolic source is outside what the stub can give a meaning to: the call site then
+# carries the obligation  pre@re.compile#pattern_is_escaped_literal  (refuted unless unreachable).
+PATTERN = Tup(TBool, TStr, TBool, TInt, tag="Pattern", fields=["is_lit", "lit", "end_nl", "id"])
+_S = z3.StringSort()
+
+
+def re_escape_uf(s):
+    return ops.uf("re_escape", _S, _S)(s)
+
+
+REG.stub("re.escape", lambda run, args, kwargs, node: Val(TStr, re_escape_uf(run.coerce(args[0], TStr).t)))
+
+
+def rx_search(pid, s):
+    return ops.uf("rx_search", z3.IntSort(), _S, z3.BoolSort())(pid, s)
+
+
+def pattern_found(p, s):
+    lit, nl = PATTERN.proj(p, 1), PATTERN.proj(p, 2)
+    return z3.If(PATTERN.proj(p, 0),
+                 z3.Or(z3.SuffixOf(lit, s), z3.And(nl, z3.SuffixOf(z3.Concat(lit, z3.StringVal("\n")), s))),
+                 rx_search(PATTERN.proj(p, 3), s))
+
+
+def _concat_parts(t):
+    if z3.is_app(t) and t.decl().kind() == z3.Z3_OP_SEQ_CONCAT:
+        out = []
+        for c in t.children():
+            out.extend(_concat_parts(c))
+        return out
+    return [t]
+
+
+def compile_symbolic(run, pat, flags, node):
+    parts = _concat_parts(z3.simplify(pat.t))
+    if len(parts) == 2 and z3.is_app(parts[0]) and parts[0].decl().name() == "re_escape" and z3.is_string_value(parts[1]) and flags == 0:
+        tail = parts[1].as_string()
+        if tail in ("$", "\\Z"):
+            return Val(PATTERN, PATTERN.mk(z3.BoolVal(True), parts[0].arg(0), z3.BoolVal(tail == "$"), z3.IntVal(0)))
+    run.oblige("pre@re.compile#pattern_is_escaped_literal", z3.BoolVal(False), kind="pre",
+               note=f"re.compile({pat.t}) at line {getattr(node, 'lineno', '?')}: the stub only knows the meaning of re.escape(lit)+'$' / re.escape(lit)+r'\\Z'; "
+                    "any other run-time pattern may contain unescaped metacharacters")
+    return Val(PATTERN, PATTERN.fresh("pattern"))
+
+
+_old_re_compile = re_compile
+
+
+def re_compile2(run, args, kwargs, node):
+    r = _old_re_compile(run, args, kwargs, node)
+    if isinstance(r, Conc) and r.obj[0] == "regex_sym":
+        return compile_symbolic(run, r.obj[1], r.obj[2], node)
+    return r
+
+
+REG.stub("re.compile", re_compile2)
+
+
+def _pattern_search(run, obj, args, kwargs, node):
+    """Pattern.search(s): a match object (truthy, not None) or None."""
+    from pyvc.types import TRef
+    s = run.coerce(args[0], TStr)
+    return Val(TRef("ReMatchObj"), z3.If(pattern_found(obj.t, s.t), 1, 0))
+
+
+REG.stub(("method", "Pattern", "search"), _pattern_search)
